@@ -128,7 +128,8 @@ func VerifC05Journal() {
 	var writes []int
 	if which != 1 {
 		p1 := rt.Bytes("new", verifP)
-		verifHeaderPage(p1, uint32(n), false)
+		// the transaction may be the one that switches the database to WAL mode (committed through the journal)
+		verifHeaderPage(p1, uint32(n), rt.Choose("switch.to.wal", 2) == 1)
 		imgAfter[0] = p1
 		writes = append(writes, 1)
 	}
